@@ -21,6 +21,13 @@ func main() {
 	}
 	initProperties()
 	switch os.Args[1] {
+	case "switches":
+		cfg := "N"
+		if len(os.Args) > 2 {
+			cfg = os.Args[2]
+		}
+		dumpSwitches(getWorld(cfg))
+		return
 	case "manifest":
 		writeManifest()
 		return
